@@ -110,3 +110,41 @@ REG.add(Contract("_add_extra_levels_to_limit_if_root_and_module_path_differ", mo
                  ensures=["is_none(result) == is_none(level_limit)",
                           "implies(not is_none(level_limit), unwrap(result) == unwrap(level_limit) + (0 if path_diff_between_root_and_module == '.' else count_sep(path_diff_between_root_and_module, '.') + 1))"],
                  properties=["C09"]))
+
+# ---------------------------------------------------------------- message records (C03), string view: RuleViolationMessageGenerator
+from .speclib import MOD as _MOD
+M_MG2 = "pytestarch.rule_assessment.error_message.message_generator"
+vals.declare_data("RVM", [("rvm_subject", ("str",)), ("rvm_verb", ("str",)), ("rvm_object", ("str",))])
+_RVM = vals.DATA["RVM"]
+REG.ctors["RuleViolatedMessage"] = lambda reg, eng, st, args, kwargs, node: [(st, V(("data", "RVM"), _RVM["ctor"](*[vals.coerce(a, ("str",)).x for a in args])))]
+REG.specfuns["mk_rvm"] = lambda eng, st, a, b, c: V(("data", "RVM"), _RVM["ctor"](a.x, b.x, c.x))
+REG.method_family["RVM"] = "RuleViolatedMessage"
+for _f, _n in (("rule_subject", "rvm_subject"), ("rule_verb", "rvm_verb"), ("rule_object", "rvm_object")):
+    REG.specfuns[_n] = (lambda nn: (lambda eng, st, m: V(("str",), _RVM["fields"][nn][0](m.x))))(_n)
+    REG.add(Contract(f"RuleViolatedMessage.{_f}", status="assumed", kind="property", params=dict(self="RVM"), returns="Str", defn=f"{_n}(self)", note="dataclass field"))
+_f_vp = z3.Function("verb_prefix", z3.BoolSort(), z3.BoolSort(), z3.BoolSort(), S)
+REG.specfuns["verb_prefix"] = lambda eng, st, a, b, c: V(("str",), _f_vp(eng.truth(a), eng.truth(b), eng.truth(c)))
+RMG2 = "RuleViolationMessageGenerator"
+_G = dict(self=RMG2)
+REG.macro("quoted", ["n"], "'\"' + n + '\"'")
+REG.add(Contract(f"{RMG2}._get_quoted_name", module=M_MG2, kind="method", view="string", params=dict(self=RMG2, name="Str"), returns="Str", defn="quoted(name)", properties=["C03"]))
+REG.add(Contract(f"{RMG2}._get_module_name", module=M_MG2, kind="method", view="string", params=dict(self=RMG2, module="Mod"), returns="Str", defn="mid(module)", properties=["C03"]))
+REG.add(Contract(f"{RMG2}._get_suffix", module=M_MG2, kind="method", view="string", params=dict(self=RMG2, xbject="Str"), returns="Str", defn="''", properties=["C03"]))
+REG.add(Contract(f"{RMG2}._get_verb_prefix", module=M_MG2, kind="method", status="assumed", params=dict(self=RMG2, negated="Bool", subject_singular="Bool"), returns="Str",
+                 defn="verb_prefix(self._import_rule, negated, subject_singular)", note="text fragment from the module-level PREFIX_MAPPING table (is / is not / does not / ...)"))
+REG.add(Contract(f"{RMG2}._get_verb_suffix", module=M_MG2, kind="method", view="string", params=dict(self=RMG2, subject_singular="Bool"), returns="Str",
+                 defn="'s' if (subject_singular and self._import_rule) else ''", properties=["C03"]))
+REG.add(Contract(f"{RMG2}._concatenate_verb", module=M_MG2, kind="method", view="string", params=dict(self=RMG2, verb="Str", prefix="Str", suffix="Str"), returns="Str",
+                 defaults=dict(prefix="''", suffix="''"), defn="prefix + verb + suffix", properties=["C03"]))
+REG.add(Contract(f"{RMG2}._get_rule_subject_and_object_of_dependency", module=M_MG2, kind="method", view="string", params=dict(self=RMG2, dependency="Dep"), returns="Tuple[Str,Str]",
+                 ensures=["result[0] == quoted(mid(dependency[0]))", "result[1] == quoted(mid(dependency[1]))"], properties=["C03"]))
+REG.macro("imports_verb", ["g"], "verb_prefix(g._import_rule, False, True) + g._base_verb + ('s' if g._import_rule else '')")
+REG.add(Contract(f"{RMG2}._create_other_violating_dependencies_message", module=M_MG2, kind="method", view="string",
+                 params=dict(self=RMG2, violating_dependencies="Bag[Dep]"), returns="Bag[RVM]",
+                 # C03: the 'X imports Y' / 'X is imported by Y' records are exactly the image of the violating pairs: every reported line is a pair of the set,
+                 # every pair of the set is reported (quoting is injective, so records and pairs correspond one to one)
+                 ensures=["forall(RVM, lambda m: (m in result) == exists(Dep, lambda d: (d in violating_dependencies) and m == mk_rvm(quoted(mid(d[0])), imports_verb(self), quoted(mid(d[1])))))"],
+                 locals=dict(messages="Bag[RVM]"),
+                 loops={0: dict(sig="for dependency in violating_dependencies", invariant=[
+                     "forall(RVM, lambda m: (m in messages) == exists(Dep, lambda d: (d in seen) and m == mk_rvm(quoted(mid(d[0])), rule_verb, quoted(mid(d[1])))))"])},
+                 properties=["C03"]))
